@@ -6,6 +6,7 @@ package main
 import (
 	"fmt"
 	"go/types"
+	"strings"
 
 	"golang.org/x/tools/go/ssa"
 )
@@ -20,6 +21,12 @@ func isInitOnlyErrorGlobal(e *Engine, g *ssa.Global) bool {
 		return false
 	}
 	ok := false
+	if g.Pkg != nil && g.Pkg.Pkg != nil && isStdlibPath(g.Pkg.Pkg.Path()) && g.Object() != nil && g.Object().Exported() && isErrorType(g.Type()) {
+		// an exported error variable of the standard library (io.EOF, context.DeadlineExceeded, os.ErrDeadlineExceeded ...):
+		// nobody reassigns those (assumption, listed); fixed, non-nil and distinct like the module's own sentinels
+		globalErrMemo[g] = 1
+		return true
+	}
 	if initFn := g.Pkg.Func("init"); initFn != nil {
 		for _, b := range initFn.Blocks {
 			for _, in := range b.Instrs {
@@ -124,4 +131,20 @@ func (c *FuncCtx) globalErrConst(g *ssa.Global, t types.Type) (string, bool) {
 		c.assume("package-level error values written only by init are fixed, non-nil and pairwise distinct (" + g.Name() + ")")
 	}
 	return name, true
+}
+
+func isStdlibPath(p string) bool {
+	first := p
+	if i := strings.IndexByte(p, '/'); i >= 0 {
+		first = p[:i]
+	}
+	return !strings.Contains(first, ".")
+}
+
+func isErrorType(t types.Type) bool {
+	if pt, ok := t.Underlying().(*types.Pointer); ok {
+		t = pt.Elem()
+	}
+	n, ok := t.(*types.Named)
+	return ok && n.Obj().Pkg() == nil && n.Obj().Name() == "error"
 }
